@@ -115,6 +115,7 @@ func VerifC08Build() {
 	if targetVoters < minVoters {
 		minVoters = targetVoters
 	}
+	dipped := false
 	for i := 0; i < op.Len(); i++ {
 		step := op.Step(i)
 		before := sim.info()
@@ -128,7 +129,12 @@ func VerifC08Build() {
 		if _, isDemote := step.(DemoteFollower); isDemote && vrfPendingVoterAdd(sim, target) {
 			// known finding: without joint consensus a demotion is planned before a pending voter addition
 			v.Assert("voter-count-dips-when-demote-precedes-add", sim.voters() >= minVoters)
+			dipped = dipped || sim.voters() < minVoters
+		} else if dipped && sim.voters() < minVoters {
+			// still the same dip: the replacement voter has been added as a learner but is not promoted yet
+			v.Assert("voter-count-dips-when-demote-precedes-add", false)
 		} else {
+			dipped = false
 			v.Assert("voter-count-not-below-min", sim.voters() >= minVoters)
 		}
 		v.Assert("leader-has-a-voting-peer", sim.peerOn(sim.leader) != nil && votes(sim.peerOn(sim.leader).Role))
